@@ -462,8 +462,42 @@ def bounded_scc_italics(ctx, b):
             b.guard(("scc-italics", seq), one, nontrivial=("ON" in seq or "OFF" in seq), sample=list(seq) if seq == ("ON", "T", "POS", "T") else None)
 
 
+def webvtt_resulting_style(c):
+    """WebVTTWriter._calculate_resulting_style: the style a span ends up with is its own properties over those of its
+    classes - each class resolved the same way through its own class chain, a later class over an earlier one, a class
+    without definition contributing nothing - so that italics / bold / underline declared anywhere along the chain mark the
+    span, and nothing that is declared nowhere does.  The styles of the set are left as they were."""
+    from pycaption.base import CaptionSet
+    from pycaption.webvtt import WebVTTWriter as W
+    ref = c.pick("span_refers_to", ["nothing", "class a", "classes a c", "classes c a", "an undefined class"])
+    own = c.pick("own_properties", [{}, {"italics": True}, {"color": "own"}])
+    xa = c.pick("class_a", [{}, {"bold": True, "color": "a"}])
+    xb = c.pick("class_b_which_a_refers_to", [{"italics": True, "color": "b"}, {"underline": True}])
+    styles = {"a": dict(xa, **{"class": "b"}), "b": dict(xb), "c": {"color": "c", "underline": True}}
+    style = dict(own)
+    style.update({"nothing": {}, "class a": {"class": "a"}, "classes a c": {"classes": ["a", "c"], "class": "a"},
+                  "classes c a": {"classes": ["c", "a"], "class": "c"}, "an undefined class": {"class": "zz"}}[ref])
+    cs = CaptionSet({"en": []}, styles={k: dict(v) for k, v in styles.items()})
+    w = c.new(W, global_layout=None, video_width=None, video_height=None)
+    r = c.call(W._calculate_resulting_style, w, dict(style), cs, compare=False)
+
+    def resolve(st):
+        out = {}
+        for cls in (st["classes"] if "classes" in st else [st["class"]] if "class" in st else []):
+            out.update(resolve(styles.get(cls, {})))
+        out.update(st)
+        return out
+    want = resolve(style)
+    for flag in ("italics", "bold", "underline"):
+        c.ensure(f"{flag}_iff_declared_along_the_chain", bool(r.get(flag)) == bool(want.get(flag)))
+    c.ensure("nearer_declarations_win", {k: v for k, v in r.items() if k not in ("class", "classes")} == {k: v for k, v in want.items() if k not in ("class", "classes")})
+    c.ensure("the_styles_of_the_set_are_left_alone", dict(cs.get_styles()) == styles)
+
+
 def run(ctx):
     ctx.ground("style_mappings", style_mappings)
+    from pycaption.webvtt import WebVTTWriter as _W
+    ctx.prove("webvtt.WebVTTWriter._calculate_resulting_style", webvtt_resulting_style, functions=[_W._calculate_resulting_style], crosscheck=False)
     import props.C07_spans as SP
     import props.C11_italics as IT
     SP.prove_span_balance(ctx)
